@@ -167,3 +167,15 @@ pub struct Fl(pub f64);
 impl From<f64> for Fl { fn from(x: f64) -> Self { Fl(x) } }
 impl Default for Fl { fn default() -> Self { Fl(0.25) } }
 impl Show for Fl { fn sv(&self) -> String { format!("Fl{}", self.0) } }
+pub fn g_clone<T>(_: &T) -> T { loop {} }
+pub fn g_default<T>() -> T { loop {} }
+pub fn g_into<T, U>(_: T) -> U { loop {} }
+impl<const J: u8> From<Good> for B<J> { fn from(g: Good) -> Self { B(g.0 as u16) } }
+probe_trait!(p_into_b0, ::core::convert::Into<crate::support::B<0>>);
+probe_trait!(p_into_b1, ::core::convert::Into<crate::support::B<1>>);
+/// marker trait for user where-clauses (C12)
+pub trait Mk {}
+impl Mk for Good {}
+impl Mk for u8 {}
+pub fn m_same<const K: u8>(a: A<K>) -> A<K> { A(a.0.wrapping_add(60)) }
+impl From<Good> for u8 { fn from(g: Good) -> u8 { g.0 } }
